@@ -803,8 +803,8 @@ def _budget(ck, op):
     if op.name in L.SUBGRAPH_OPS:
         return 0
     if op.shared_with:
-        return ck.pick(3, 40)
-    return ck.pick(40, 1000)
+        return ck.pick(5, 40)
+    return ck.pick(70, 1000)
 
 
 def run(ck: core.Check):
@@ -853,20 +853,20 @@ def run(ck: core.Check):
         if op.shared_with or op.name in L.SUBGRAPH_OPS:
             continue
         multi = L._variadic_output(op) or op.name in L.BODY_OPS
-        for k in range(ck.pick(25, 250) if multi else ck.pick(2, 20)):
+        for k in range(ck.pick(40, 250) if multi else ck.pick(4, 20)):
             hwork.append((op.key, "out_count" if multi and k % 2 == 0 else None))
     cwork = []
     for op in ops:
         if op.shared_with or op.name in L.BODY_OPS:
             continue
-        cwork += [op.key] * (ck.pick(30, 300) if op.name in DATA_DEP else ck.pick(4, 50))
+        cwork += [op.key] * (ck.pick(50, 300) if op.name in DATA_DEP else ck.pick(8, 50))
     work = []
     for op in ops:
         work += [op.key] * _budget(ck, op)
     for lst in (hwork, cwork, work):
         rng.shuffle(lst)  # a slice mixes operators; order is still a function of the seed
-    nflows = ck.pick(700, 9000)
-    nh, nf, nc, nw = ck.pick((4, 4, 6, 10), (8, 8, 16, 32))
+    nflows = ck.pick(1500, 9000)
+    nh, nf, nc, nw = ck.pick((6, 6, 8, 12), (8, 8, 16, 32))
     tasks = [("histories", i, hwork[i::nh]) for i in range(nh)]
     tasks += [("flows", i, nflows // nf + (1 if i < nflows % nf else 0)) for i in range(nf)]
     tasks += [("constfed", i, cwork[i::nc]) for i in range(nc)]
@@ -943,8 +943,8 @@ def run(ck: core.Check):
         "per_operator": {k: " ".join(f"{a}={n}" for a, n in sorted(v.items())) for k, v in sorted(per_op.items()) if not by_key[k].shared_with},
     })
     ck.exhaustive = False
-    ck.rule = ("seeded random constructor calls over every (module, operator) pair: 40 (quick) / 1000 (thorough) per distinct node "
-               "class, 3 / 40 per re-exported one; non-trivial = distinct (operator, accept/reject class, calling-form family, "
+    ck.rule = ("seeded random constructor calls over every (module, operator) pair: 70 (quick) / 1000 (thorough) per distinct node "
+               "class, 5 / 40 per re-exported one; non-trivial = distinct (operator, accept/reject class, calling-form family, "
                "#explicit attributes, argument kinds)")
     ck.assumptions += [
         "onnx.shape_inference.infer_shapes is invariant under injective renaming of value names and ignores graph inputs / initializers the node does not read (hypotheses InferOK of eager_agrees; observed by the oracle, which uses its own names and no extra inputs)",
